@@ -35,6 +35,24 @@ class IfaceViolation(Undecided):
     pass
 
 
+def split_struct_format(fmt):
+    """'>hiq' -> ['>h', '>i', '>q'] for explicit byte orders and the scalar codes this engine models; None otherwise"""
+    if not isinstance(fmt, str) or len(fmt) < 2 or fmt[0] not in "><!":
+        return None
+    out, count = [], ""
+    for ch in fmt[1:]:
+        if ch.isdigit():
+            count += ch
+            continue
+        if ch.isspace():
+            continue
+        if ch not in "bBhHiIqQ?d":
+            return None
+        out.extend([fmt[0] + ch] * (int(count) if count else 1))
+        count = ""
+    return out if not count else None
+
+
 def resolve_opt(ctx, v):
     """an optional value used where its None-ness matters: fork (pruned by the path condition)"""
     while isinstance(v, SOpt):
@@ -637,7 +655,15 @@ def m_struct_pack(interp, fr, fmt, *vals):
                 return struct.pack(fmt, *vals)
             except struct.error:
                 raise PyRaise(struct.error)
-        raise Undecided("struct.pack with several symbolic values")
+        parts = split_struct_format(fmt)
+        if parts is None:
+            raise Undecided(f"struct format {fmt!r} is not modelled")
+        if len(parts) != len(vals):
+            raise PyRaise(struct.error, "pack expected a different number of items")
+        segs = []
+        for f1, v1 in zip(parts, vals):      # one field at a time, in order: the first bad item raises struct.error
+            segs.extend(as_bytes(m_struct_pack(interp, fr, f1, v1)))
+        return SBytes(segs)
     v = vals[0]
     if not isinstance(v, Sym):
         try:
@@ -739,6 +765,15 @@ def m_struct_unpack(interp, fr, fmt, b):
                 t = z3.If(t >= (1 << (8 * d[1] - 1)), t - (1 << (8 * d[1])), t)
             return (lower(t),)
         raise Undecided(f"struct.unpack({fmt!r}) of {segs!r}")
+    parts = split_struct_format(fmt)
+    if parts is not None and len(parts) > 1:
+        # several fields: the buffer (its total size was checked above) is cut into the fields' sizes, in order
+        src = Source(ctx, list(segs))
+        out = []
+        for f1 in parts:
+            chunk = src._take(z3.IntVal(struct.calcsize(f1)))
+            out.extend(m_struct_unpack(interp, fr, f1, chunk))
+        return tuple(out)
     raise Undecided(f"struct format {fmt!r} is not modelled")
 
 
@@ -816,7 +851,39 @@ def m_bool(interp, fr, v=False):
     return t if isinstance(t, bool) else SBool(t)
 
 
+class MappedSeq(Sym):
+    """map(f, <symbolic sequence>): consumed by a fold (max) or materialised item by item"""
+
+    def __init__(self, f, seq):
+        self.f, self.seq = f, seq
+
+    def attr_name(self):
+        import operator
+        if isinstance(self.f, operator.attrgetter):
+            args = self.f.__reduce__()[1]
+            if len(args) == 1 and isinstance(args[0], str) and "." not in args[0]:
+                return args[0]
+        return None
+
+
+def m_map(interp, fr, f, *its):
+    if len(its) == 1 and isinstance(its[0], SSeq):
+        return MappedSeq(f, its[0])
+    if any(isinstance(i, Sym) for i in its):
+        raise Undecided("map over a symbolic iterable")
+    cols = [list(interp.iterate(i)) for i in its]
+    return [interp.call(f, list(row), {}, fr) for row in zip(*cols)]
+
+
 def m_max(interp, fr, *args, **kw):
+    if len(args) == 1 and isinstance(args[0], MappedSeq):
+        import ast as _ast
+        name = args[0].attr_name()
+        handler = getattr(interp, "fold_handler", None)
+        if name is None or handler is None or kw:
+            raise Undecided("max(map(f, <symbolic sequence>)) needs a contract")
+        elt = _ast.Attribute(value=_ast.Name(id="item", ctx=_ast.Load()), attr=name, ctx=_ast.Load())
+        return handler(interp, "max", None, (args[0].seq, None, elt))
     if len(args) == 1 and isinstance(args[0], _LazyGen):
         src = args[0].symbolic_source()
         if src is not None and isinstance(src[0], Sym):
@@ -1198,6 +1265,7 @@ def base_models():
         enumerate: m_enumerate,
         zip: m_zip,
         iter: m_iter,
+        map: m_map,
         list: m_list,
         any: m_any,
         all: m_all,
